@@ -363,6 +363,10 @@ def h_line(sx, cfg):
             vals = [sx.eq(row[col], arr[idx + (k,)]) for k, col in enumerate(line.value_columns)]
             alts.append(sx.And(*conds, *vals))
         sx.check(f"value[{t}]", sx.Or(*alts))
+        # "the values at those points": the same value as sampling the field at the line's own point
+        direct = f(tuple(row[d] for d in dims) if nd > 1 else row[dims[0]])
+        for k, col in enumerate(line.value_columns):
+            sx.check(f"value[{t}][{k}]-is-field-at-point", sx.eq(row[col], direct[k]))
     # last point is p2 exactly
     last = line.data.iloc[npts - 1]
     for a in range(nd):
@@ -464,8 +468,17 @@ def h_reject(sx, cfg):
         bad.append(("concrete-scalar-for-vector", 2.5, (ValueError,)))
     else:
         bad.append(("vector-for-scalar", (w, w), (ValueError,)))
+    calls = []
+
+    def partly_bad(point):
+        # fits the field for the first cell, has one component too many afterwards
+        calls.append(1)
+        return [w] * (nv if len(calls) == 1 else nv + 1)
+
+    bad.append(("callable-wrong-length-after-first-cell", partly_bad, (ValueError,)))
     for name, val, excs in bad:
         for route in ("update", "setter"):
+            del calls[:]
             try:
                 if route == "update":
                     f.update_field_values(val)
@@ -558,6 +571,9 @@ def tasks(tier):
         dict(src_n=[2, 2], tgt_n=[4, 2], src_box=[[0.0, 0.0], [2.0, 2.0]], tgt_box=[[0.0, 0.0], [2.0, 2.0]], nvdim=1),  # commensurate: faces hit
         dict(src_n=[2, 2, 1], tgt_n=[1, 3, 2], src_box=[[0, 0, 0], [4.0, 6.0, 1.0]], tgt_box=[[0.5, 0.5, 0.1], [3.5, 5.5, 0.9]], nvdim=3, labels="custom"),
         dict(src_n=[2], tgt_n=[2], src_box=[[0.0], [1.0]], tgt_box=[[0.5], [1.5]], nvdim=1),  # not contained
+        # same number of cells, target strictly inside the source: cells do not coincide
+        dict(src_n=[3], tgt_n=[3], src_box=[[0.0], [3.0]], tgt_box=[[1.0], [2.8]], nvdim=1),
+        dict(src_n=[2, 3], tgt_n=[2, 3], src_box=[[0.0, 0.0], [2.0, 3.0]], tgt_box=[[1.1, 0.2], [1.9, 1.3]], nvdim=2),
         dict(src_n=[2, 2], tgt_n=[1, 1], src_box=[[0.0, 0.0], [1.0, 1.0]], tgt_box=[[-0.5, 0.0], [0.5, 1.0]], nvdim=2),  # not contained
     ]
     if not q:
